@@ -32,6 +32,10 @@ pub struct Glue {
     pub n_near: usize,
     /// which running fetch delivers next (index into the in-flight list, modulo its length)
     pub arrivals: Vec<u32>,
+    /// 0 = full-node clause; 1 = a periodic list consisting mostly of records the node already holds, plus
+    /// `n_far` records outside and `n_near` records inside the responsible range, on a node that is not full
+    #[serde(default)]
+    pub variant: u8,
 }
 
 struct RunDir(PathBuf);
@@ -76,7 +80,7 @@ pub fn execute(plan: &Plan, entropy: u64) -> RunReport {
         hooks::gates_install();
         let kp = ed_key(seed, 0);
         let me = kp.public().to_peer_id().to_bytes();
-        let built = NetworkBuilder::new(kp, true).verif_build_node(root.clone(), Some(g.capacity), None);
+        let built = NetworkBuilder::new(kp, true).verif_build_node(root.clone(), Some(if g.variant == 1 { 4096 } else { g.capacity }), None);
         let (_network, mut events, mut driver) = match built {
             Ok(x) => x,
             Err(e) => {
@@ -108,6 +112,114 @@ pub fn execute(plan: &Plan, entropy: u64) -> RunReport {
                     }
                 }
             }};
+        }
+
+        if g.variant == 1 {
+            // ---- periodic list of mostly held records, through the real replicate-request handler -------------------
+            let held_n = g.capacity; // the store itself keeps its default capacity's worth of room: build with a big one
+            let mut pool: Vec<(crate::model::D256, Vec<u8>)> = (0..(held_n as u64 + 12) * 2)
+                .map(|i| {
+                    let k = key_bytes(seed, "key", i);
+                    (xor_distance(&me, &k), k)
+                })
+                .collect();
+            pool.sort();
+            // the nearer part is held (except a few gaps = in-range records not held), the farthest few are not held
+            let n_out = g.n_far.max(1);
+            let n_in = g.n_near;
+            let cut = pool.len() - n_out - 4;
+            let outside: Vec<Vec<u8>> = pool[pool.len() - n_out..].iter().map(|e| e.1.clone()).collect();
+            let mut held: Vec<Vec<u8>> = vec![];
+            let mut inside: Vec<Vec<u8>> = vec![];
+            for (i, e) in pool[..cut].iter().enumerate() {
+                if inside.len() < n_in && i % 5 == 2 {
+                    inside.push(e.1.clone());
+                } else if held.len() < held_n {
+                    held.push(e.1.clone());
+                }
+            }
+            // only records nearer than the farthest held one are "inside"
+            let far_held = held.iter().map(|k| xor_distance(&me, k)).max().expect("held");
+            inside.retain(|k| xor_distance(&me, k) < far_held);
+            for k in &held {
+                let _ = driver.verif_handle_local_cmd(LocalSwarmCmd::PutLocalRecord { record: record_for(k) });
+                quiesce!();
+            }
+            // responsible range: the distance of the farthest HELD record (every "outside" record is at least four
+            // pool entries farther, every "inside" record nearer: no boundary case)
+            let range = held.iter().map(|k| xor_distance(&me, k)).max().expect("held");
+            let range_bytes: [u8; 32] = range;
+            driver.verif_set_responsible_range(ant_evm::U256::from_be_bytes(range_bytes));
+            while events.try_recv().is_ok() {}
+            let holder = ed_key(seed, 1).public().to_peer_id();
+            let addr = format!("/ip4/10.0.0.9/udp/9000/quic-v1/p2p/{holder}").parse().expect("multiaddr");
+            if !driver.verif_add_peer(holder, addr) {
+                rep.harness_error = Some("holder not accepted by the routing table".into());
+                return rep;
+            }
+            // lists: all held + exactly one record not held (the shape that a pre-filter turns into a "single key"),
+            // then all held + every record not held
+            let mut lists: Vec<Vec<Vec<u8>>> = vec![];
+            let pick_out = outside[g.arrivals[0] as usize % outside.len()].clone();
+            let mut l1 = held.clone();
+            l1.insert(g.arrivals[1] as usize % (held.len() + 1), pick_out);
+            lists.push(l1);
+            let mut l2 = held.clone();
+            l2.extend(outside.iter().cloned());
+            l2.extend(inside.iter().cloned());
+            lists.push(l2);
+            for (li, list) in lists.iter().enumerate() {
+                let keys: Vec<(NetworkAddress, RecordType)> =
+                    list.iter().map(|k| (NetworkAddress::from_record_key(&RecordKey::new(k)), RecordType::Chunk)).collect();
+                rep.ops += 1;
+                rep.log(format!("periodic list #{li}: {} records, {} of them held, range = distance of the farthest held record", keys.len(), held.len()));
+                driver.verif_handle_replicate_request(NetworkAddress::from_peer(holder), keys);
+                quiesce!();
+                let mut scheduled: Vec<Vec<u8>> = vec![];
+                while let Ok(ev) = events.try_recv() {
+                    if let NetworkEvent::KeysToFetchForReplication(keys) = ev {
+                        scheduled.extend(keys.into_iter().map(|(_, k)| k.to_vec()));
+                    }
+                }
+                let tracked: Vec<Vec<u8>> = driver
+                    .verif_fetcher_in_flight()
+                    .into_iter()
+                    .chain(driver.verif_fetcher_queued())
+                    .map(|(k, _, _)| k.to_vec())
+                    .chain(scheduled.iter().cloned())
+                    .collect();
+                if let Some(bad) = tracked.iter().find(|k| xor_distance(&me, k) > range) {
+                    rep.violate(
+                        PROP,
+                        "range.out_of_range_key_admitted",
+                        &[("glue", "real_driver".into()), ("shape", "multi_record_list_of_mostly_held_records".into())],
+                        format!("a multi-record advertisement ({} records, all but {} held) made the node track/fetch {} which lies outside its responsible range", list.len(), list.len() - held.len(), hex::encode(&bad[..3])),
+                    );
+                    break;
+                }
+                if let Some(bad) = tracked.iter().find(|k| held.contains(k)) {
+                    rep.violate(
+                        PROP,
+                        "held.fetch_scheduled_for_held_record",
+                        &[("glue", "real_driver".into())],
+                        format!("the node tracks/fetches {} which it holds in the advertised version", hex::encode(&bad[..3])),
+                    );
+                    break;
+                }
+                if li == 1 {
+                    let missing = inside.iter().filter(|k| !tracked.contains(k)).count();
+                    if missing > 0 {
+                        rep.probe("in_range_record_of_periodic_list_not_tracked_yet");
+                    } else if !inside.is_empty() {
+                        rep.probe("in_range_records_of_periodic_list_tracked");
+                    }
+                }
+                rep.probe("periodic_list_of_mostly_held_records_handled");
+                rep.steps += 1;
+            }
+            rep.state.write_u64(held.len() as u64);
+            hooks::gates_uninstall();
+            return rep;
         }
 
         // candidate keys ordered by the harness's own distance
